@@ -1,6 +1,7 @@
 // Harness for C20: drives the real Pipe..Pipe20 (a copy of /repo/internal/pipe/pipe.go staged
 // at run time into ./pipen) with call-logging, pairwise non-commuting affine functions.
-// line in:  n x a1 b1 ... an bn      line out: result | trace of stage indices in call order
+// line in:  n x a1 b1 ... an bn      (x = -1: the argument is the nil interface value)
+// line out: result | trace   ||   result | trace      (the SAME composed function applied twice to the same argument)
 package main
 
 import (
@@ -17,15 +18,19 @@ const modulus = 1000003
 
 var trace []int
 
-func mk(i int, a, b int64) func(int64) int64 {
-	return func(x int64) int64 {
+// stages work on `any` so that a nil interface argument is a legal input
+func mk(i int, a, b int64) func(any) any {
+	return func(v any) any {
 		trace = append(trace, i)
-		r := (a*x + b) % modulus
-		return r
+		var x int64
+		if v != nil {
+			x = v.(int64)
+		}
+		return (a*x + b) % modulus
 	}
 }
 
-func apply(n int, x int64, f []func(int64) int64) (r int64, ok bool) {
+func apply(n int, x any, f []func(any) any) (g func(any) any, ok bool) {
 	defer func() {
 		if e := recover(); e != nil {
 			ok = false
@@ -33,45 +38,54 @@ func apply(n int, x int64, f []func(int64) int64) (r int64, ok bool) {
 	}()
 	switch n {
 	case 2:
-		return pure.Pipe(f[0], f[1])(x), true
+		return pure.Pipe(f[0], f[1]), true
 	case 3:
-		return pure.Pipe3(f[0], f[1], f[2])(x), true
+		return pure.Pipe3(f[0], f[1], f[2]), true
 	case 4:
-		return pure.Pipe4(f[0], f[1], f[2], f[3])(x), true
+		return pure.Pipe4(f[0], f[1], f[2], f[3]), true
 	case 5:
-		return pure.Pipe5(f[0], f[1], f[2], f[3], f[4])(x), true
+		return pure.Pipe5(f[0], f[1], f[2], f[3], f[4]), true
 	case 6:
-		return pure.Pipe6(f[0], f[1], f[2], f[3], f[4], f[5])(x), true
+		return pure.Pipe6(f[0], f[1], f[2], f[3], f[4], f[5]), true
 	case 7:
-		return pure.Pipe7(f[0], f[1], f[2], f[3], f[4], f[5], f[6])(x), true
+		return pure.Pipe7(f[0], f[1], f[2], f[3], f[4], f[5], f[6]), true
 	case 8:
-		return pure.Pipe8(f[0], f[1], f[2], f[3], f[4], f[5], f[6], f[7])(x), true
+		return pure.Pipe8(f[0], f[1], f[2], f[3], f[4], f[5], f[6], f[7]), true
 	case 9:
-		return pure.Pipe9(f[0], f[1], f[2], f[3], f[4], f[5], f[6], f[7], f[8])(x), true
+		return pure.Pipe9(f[0], f[1], f[2], f[3], f[4], f[5], f[6], f[7], f[8]), true
 	case 10:
-		return pure.Pipe10(f[0], f[1], f[2], f[3], f[4], f[5], f[6], f[7], f[8], f[9])(x), true
+		return pure.Pipe10(f[0], f[1], f[2], f[3], f[4], f[5], f[6], f[7], f[8], f[9]), true
 	case 11:
-		return pure.Pipe11(f[0], f[1], f[2], f[3], f[4], f[5], f[6], f[7], f[8], f[9], f[10])(x), true
+		return pure.Pipe11(f[0], f[1], f[2], f[3], f[4], f[5], f[6], f[7], f[8], f[9], f[10]), true
 	case 12:
-		return pure.Pipe12(f[0], f[1], f[2], f[3], f[4], f[5], f[6], f[7], f[8], f[9], f[10], f[11])(x), true
+		return pure.Pipe12(f[0], f[1], f[2], f[3], f[4], f[5], f[6], f[7], f[8], f[9], f[10], f[11]), true
 	case 13:
-		return pure.Pipe13(f[0], f[1], f[2], f[3], f[4], f[5], f[6], f[7], f[8], f[9], f[10], f[11], f[12])(x), true
+		return pure.Pipe13(f[0], f[1], f[2], f[3], f[4], f[5], f[6], f[7], f[8], f[9], f[10], f[11], f[12]), true
 	case 14:
-		return pure.Pipe14(f[0], f[1], f[2], f[3], f[4], f[5], f[6], f[7], f[8], f[9], f[10], f[11], f[12], f[13])(x), true
+		return pure.Pipe14(f[0], f[1], f[2], f[3], f[4], f[5], f[6], f[7], f[8], f[9], f[10], f[11], f[12], f[13]), true
 	case 15:
-		return pure.Pipe15(f[0], f[1], f[2], f[3], f[4], f[5], f[6], f[7], f[8], f[9], f[10], f[11], f[12], f[13], f[14])(x), true
+		return pure.Pipe15(f[0], f[1], f[2], f[3], f[4], f[5], f[6], f[7], f[8], f[9], f[10], f[11], f[12], f[13], f[14]), true
 	case 16:
-		return pure.Pipe16(f[0], f[1], f[2], f[3], f[4], f[5], f[6], f[7], f[8], f[9], f[10], f[11], f[12], f[13], f[14], f[15])(x), true
+		return pure.Pipe16(f[0], f[1], f[2], f[3], f[4], f[5], f[6], f[7], f[8], f[9], f[10], f[11], f[12], f[13], f[14], f[15]), true
 	case 17:
-		return pure.Pipe17(f[0], f[1], f[2], f[3], f[4], f[5], f[6], f[7], f[8], f[9], f[10], f[11], f[12], f[13], f[14], f[15], f[16])(x), true
+		return pure.Pipe17(f[0], f[1], f[2], f[3], f[4], f[5], f[6], f[7], f[8], f[9], f[10], f[11], f[12], f[13], f[14], f[15], f[16]), true
 	case 18:
-		return pure.Pipe18(f[0], f[1], f[2], f[3], f[4], f[5], f[6], f[7], f[8], f[9], f[10], f[11], f[12], f[13], f[14], f[15], f[16], f[17])(x), true
+		return pure.Pipe18(f[0], f[1], f[2], f[3], f[4], f[5], f[6], f[7], f[8], f[9], f[10], f[11], f[12], f[13], f[14], f[15], f[16], f[17]), true
 	case 19:
-		return pure.Pipe19(f[0], f[1], f[2], f[3], f[4], f[5], f[6], f[7], f[8], f[9], f[10], f[11], f[12], f[13], f[14], f[15], f[16], f[17], f[18])(x), true
+		return pure.Pipe19(f[0], f[1], f[2], f[3], f[4], f[5], f[6], f[7], f[8], f[9], f[10], f[11], f[12], f[13], f[14], f[15], f[16], f[17], f[18]), true
 	case 20:
-		return pure.Pipe20(f[0], f[1], f[2], f[3], f[4], f[5], f[6], f[7], f[8], f[9], f[10], f[11], f[12], f[13], f[14], f[15], f[16], f[17], f[18], f[19])(x), true
+		return pure.Pipe20(f[0], f[1], f[2], f[3], f[4], f[5], f[6], f[7], f[8], f[9], f[10], f[11], f[12], f[13], f[14], f[15], f[16], f[17], f[18], f[19]), true
 	}
-	return 0, false
+	return nil, false
+}
+
+func call(g func(any) any, x any) (r any, ok bool) {
+	defer func() {
+		if e := recover(); e != nil {
+			ok = false
+		}
+	}()
+	return g(x), true
 }
 
 func main() {
@@ -95,20 +109,33 @@ func main() {
 			continue
 		}
 		n := int(v[0])
-		f := make([]func(int64) int64, n)
+		f := make([]func(any) any, n)
 		for i := 0; i < n; i++ {
 			f[i] = mk(i+1, v[2+2*i], v[3+2*i])
 		}
-		trace = trace[:0]
-		r, ok := apply(n, v[1], f)
+		var arg any
+		if v[1] != -1 {
+			arg = v[1]
+		}
+		g, ok := apply(n, arg, f)
 		if !ok {
 			fmt.Fprintln(out, "panic")
 			continue
 		}
-		ts := make([]string, len(trace))
-		for i, t := range trace {
-			ts[i] = strconv.Itoa(t)
+		parts := []string{}
+		for rep := 0; rep < 2; rep++ {
+			trace = trace[:0]
+			r, ok := call(g, arg)
+			if !ok {
+				parts = append(parts, "panic")
+				continue
+			}
+			ts := make([]string, len(trace))
+			for i, t := range trace {
+				ts[i] = strconv.Itoa(t)
+			}
+			parts = append(parts, fmt.Sprintf("%v | %s", r, strings.Join(ts, " ")))
 		}
-		fmt.Fprintf(out, "%d | %s\n", r, strings.Join(ts, " "))
+		fmt.Fprintln(out, strings.Join(parts, " || "))
 	}
 }
